@@ -220,12 +220,18 @@ func storeSlashingProtection(ctx context.Context, protection *SlashingProtection
 			if err != nil {
 				return errors.Wrap(err, "invalid attestation source epoch")
 			}
+			if sourceEpoch < 0 {
+				return errors.New("invalid attestation source epoch")
+			}
 			if sourceEpoch > keyProtection.HighestAttestedSourceEpoch {
 				keyProtection.HighestAttestedSourceEpoch = sourceEpoch
 			}
 			targetEpoch, err := strconv.ParseInt(attestation.TargetEpoch, 10, 64)
 			if err != nil {
 				return errors.Wrap(err, "invalid attestation target epoch")
+			}
+			if targetEpoch < 0 {
+				return errors.New("invalid attestation target epoch")
 			}
 			if targetEpoch > keyProtection.HighestAttestedTargetEpoch {
 				keyProtection.HighestAttestedTargetEpoch = targetEpoch
@@ -236,6 +242,9 @@ func storeSlashingProtection(ctx context.Context, protection *SlashingProtection
 			slot, err := strconv.ParseInt(proposal.Slot, 10, 64)
 			if err != nil {
 				return errors.Wrap(err, "invalid proposal slot")
+			}
+			if slot < 0 {
+				return errors.New("invalid proposal slot")
 			}
 			if slot > keyProtection.HighestProposedSlot {
 				keyProtection.HighestProposedSlot = slot
